@@ -15,7 +15,7 @@ OUTSIDE = {"redxor"}
 REPL = [["self.ctx", "ctx"], ["self.check_expr_type(", "check_expr_type(ctx, "], ["self.check_type(", "check_type("],
         ["self.require_at_least_n_tokens(", "require_at_least_n_tokens("], ["self.parse_width_int(", "parse_width_int("]]
 MORE_BUILDERS = ["greater", "greater_or_equal", "greater_signed", "greater_or_equal_signed", "implies", "div", "signed_div", "signed_mod",
-                 "signed_remainder", "remainder", "array_read", "array_store"]
+                 "signed_remainder", "remainder", "array_read", "array_store", "distinct"]
 
 
 def build(ub, algebra_text):
